@@ -20,7 +20,7 @@ def ref_flatten(shape, s, e):
     return list(shape[:s2]) + [int(np.prod(shape[s2:e2 + 1]))] + list(shape[e2 + 1:])
 
 
-def run(ctx):
+def _run_main(ctx):
     from nir.ir.utils import calc_flatten_output
     rng = ctx.rng
     cases, obs, reqs = [], [], []
@@ -131,6 +131,29 @@ def run(ctx):
                             {"site": "Flatten", "what": f"chain-{how}-roundtrip"}, observed=bad,
                             required={k: w for k, w in want.items() if k in bad})
                 break
+    # axis lengths at the edges of the integer widths a writer might pick for a shape vector (127/128/129, 255/256,
+    # 32767/32768, 2^31-1/2^31): the Flatten read back flattens what was written
+    for _ in range(ctx.n(30, 150)):
+        big = rng.choice([127, 128, 129, 255, 256, 257, 32767, 32768, 32769, 65535, 65536, 2 ** 31 - 1, 2 ** 31, 2 ** 31 + 1])
+        shp = [rng.randrange(1, 4) for _ in range(rng.randrange(1, 4))]
+        shp.insert(rng.randrange(0, len(shp) + 1), big)
+        r = len(shp); a = rng.randrange(0, r); b = rng.randrange(a, r)
+        case = {"op": "flatten_boundary_axis", "shape": shp, "s": a, "e": b}
+        ctx.case(case); ctx.count("flatten_boundary_axis")
+        want = ref_flatten(shp, a, b)
+        try:
+            f = nir.Flatten(np.array(shp), a, b)
+            g0 = nir.NIRGraph(nodes={"f": f}, edges=[])
+            res = {}
+            for how in ("dict", "file"):
+                g2 = nir.NIRGraph.from_dict(g0.to_dict()) if how == "dict" else file_roundtrip(g0)
+                res[how] = (_ints(g2.nodes["f"].input_type["input"]), _ints(g2.nodes["f"].output_type["output"]))
+        except Exception as e:  # noqa
+            res = {"raised": f"{type(e).__name__}: {e}"}
+        bad = {k: v for k, v in res.items() if v != (shp, want)}
+        if bad:
+            ctx.violate(case, "Flatten shape does not survive a round trip (axis length at an integer-width boundary)",
+                        {"site": "Flatten", "what": "boundary-axis-roundtrip"}, observed=bad, required=[shp, want])
     # two nodes given one and the same type-dictionary *object* (a dict argument is kept as it is): re-typing the later one
     # by inference must leave the earlier Flatten exactly the flattening of its own input
     from core import quiet
@@ -193,3 +216,11 @@ def _shape_of(j):
     if isinstance(v, dict):
         v = v["input"]
     return [int(x) for x in np.asarray(v).ravel()]
+
+
+def run(ctx):
+    _run_main(ctx)
+    # history independence (harness/history.py): among the edits, a node swapped for a fresh one of the same class under
+    # the same name with its annotations erased - a later infer_types types the graph as it is now
+    import history
+    history.run(ctx, ["infer", "dict_rt", "file_rt"], {"infer": "infer_types on a graph object with a history", "dict_rt": "from_dict(to_dict(g)) of a graph object with a history", "file_rt": "read(write(g)) of a graph object with a history"})
